@@ -182,7 +182,7 @@ func runSensitivity(prop string) map[string]any {
 			if kind == "seeded" && !strings.HasPrefix(en.Name(), prop+"-") {
 				continue
 			}
-			if kind == "benign" && !strings.HasPrefix(en.Name(), prop+"-") && !strings.HasPrefix(en.Name(), "R2-"+prop+"-") {
+			if kind == "benign" && !strings.HasPrefix(en.Name(), prop+"-") && !strings.HasPrefix(en.Name(), "R2-"+prop+"-") && !strings.HasPrefix(en.Name(), "R3-"+prop+"-") {
 				continue
 			}
 			patch := filepath.Join(root, kind, en.Name(), "patch.diff")
